@@ -666,13 +666,13 @@ Proof.
   intros Hc Hn Hci Hr Hd. unfold expand_schema_ref. rewrite Hn. cbn [pbind]. rewrite Hci, Hr, Hc, Hd. reflexivity.
 Qed.
 
-(* continue mode, ill-typed target (found, but a string/number/boolean/array or undecodable): the holder
-   becomes the empty schema — the behaviour of the current code, an open finding against C08 (F22) *)
+(* continue mode, ill-typed target (found, but a string/number/boolean/array or undecodable): the holder is left
+   verbatim as well (before the repair of F22 it became the empty schema) *)
 Theorem esr_continue_illtyped s parents rroot base m nref s1 sf :
   o_cont OP = true ->
   nuri (get_str "$ref" m) base = POk nref -> is_circular s nref parents = (s1, false) ->
   resolve E docs cwd live s1 rroot (get_str "$ref" m) base "Schema" = Failed sf -> dfail sf = true ->
-  expand_schema_ref E docs cwd OP ctx_base live follow s parents rroot base m = Done (set_dfail sf false, JObj []).
+  expand_schema_ref E docs cwd OP ctx_base live follow s parents rroot base m = Done (set_dfail sf false, JObj m).
 Proof.
   intros Hc Hn Hci Hr Hd. unfold expand_schema_ref. rewrite Hn. cbn [pbind]. rewrite Hci, Hr, Hc, Hd. reflexivity.
 Qed.
